@@ -146,9 +146,11 @@ func c01Case(c *fw.Ctx, tree *spec.Spec, r *rng.R) {
 		c.Violate(sig, in(), "re-parsed container equals the original tree", d+"\nre-parsed = "+spec.Trunc(w.Canon(), 600))
 		return
 	}
-	if !equalsOf(parsed, real) || !equalsOf(real, parsed) {
-		c.Violate("roundtrip-equals-false", in(), "parsed.Equals(original) and original.Equals(parsed) are true (walker sees identical content)", "Equals returned false")
-		return
+	for rep := 0; rep < 3; rep++ { // repeated: object comparison walks a map in a different order each time
+		if !equalsOf(parsed, real) || !equalsOf(real, parsed) {
+			c.Violate("roundtrip-equals-false", in(), "parsed.Equals(original) and original.Equals(parsed) are true (walker sees identical content)", "Equals returned false")
+			return
+		}
 	}
 	// second round trip
 	text2 := stringOf(parsed)
@@ -234,7 +236,18 @@ func runC02(c *fw.Ctx) {
 			if c.WantSample() && tree.Size() > 3 && tree.Size() < 30 {
 				c.Sample(map[string]any{"tree": tree.Canon(), "String()": text})
 			}
-			checkJSONText(c, "string", text, tree, func() string { return describeTree(tree) + "\nString() = " + text })
+			if checkJSONText(c, "string", text, tree, func() string { return describeTree(tree) + "\nString() = " + text }) && tree.Size() < 200 {
+				// objects are serialised in map iteration order, which changes from call to call: two more renderings
+				for rep := 0; rep < 2; rep++ {
+					t2 := stringOf(real)
+					if t2 != text {
+						c.Count("string_renderings_in_another_key_order")
+						if !checkJSONText(c, "string", t2, tree, func() string { return describeTree(tree) + "\nString() (another call) = " + t2 }) {
+							break
+						}
+					}
+				}
+			}
 		})
 	})
 	historyCases(c, "history", 600, 60000, probeJSONText)
